@@ -230,7 +230,12 @@ def histories(M, rec, rng, reps):
                 byid = {id(x): x for x in N + L}
                 (uu, vv), ll = rng.choice(list(st["edges"].items()))
                 if uu in byid and vv in byid and ll in byid:
-                    rng.choice((net.G, net.graph)).remove_edge(byid[uu], byid[vv])
+                    try:
+                        rng.choice((net.G, net.graph)).remove_edge(byid[uu], byid[vv])
+                    except Exception as e:
+                        rec.violation(f"{PROP}:an edge the construction calls put into the public graph cannot be found there again ({type(e).__name__}: the graph is not the one that was described)",
+                                      {"history": [str(h_)[:80] for h_ in hist][-6:], "exception": repr(e)[:200]})
+                        break
                     st = netmon.model_apply(st, ("remove_edge", byid[uu], byid[vv]))
                     rec.count("edges_removed_through_the_graph")
                     if rng.random() < 0.7:
